@@ -5,7 +5,7 @@
     [find_entry(..).unwrap()] of convert_pieces_to_work, the layout) return [Ok].  With this, the
     hypotheses "[populate .. = Ok es]" and "[work_of es ts = Ok ws]" of [run_setup] are theorems. *)
 From TB Require Import Base Decimal BencodeModel BencodeSpec TorrentModel TorrentSpec TorrentProofs LayoutModel LayoutSpec LayoutProofs
-                       PathModel FsModel SolverModel FinderModel RunModel GlueProofs Generated GeneratedObligations.
+                       PathModel FsModel SolverModel FinderModel RunModel SolverProofs SystemProofs PresentProofs GlueProofs Generated GeneratedObligations.
 From Coq Require Import ZifyN ZifyNat ZifyBool.
 Local Open Scope N_scope.
 
@@ -235,4 +235,37 @@ Theorem setup_total export ts ix : Forall torrent_ok ts -> Forall paths_ok ts ->
 Proof.
   intros Hts Hps Hix. destruct (populate_total ix Hix _ (metadata_table_partial export ts 0 Hps)) as [es Hes].
   destruct (work_of_total export ts ix Hts es Hes) as [ws Hws]. eauto.
+Qed.
+
+(** ** From the bytes on the command line to [run_setup] *)
+Lemma loaded_in H xs t : In t (loaded H xs) -> exists x, In x xs /\ load H x = Ok t.
+Proof.
+  unfold loaded. intros Hin. apply in_flat_map in Hin. destruct Hin as (x & Hx & Ht).
+  destruct (load H x) as [u| | |] eqn:El; try contradiction. destruct Ht as [<-|[]]. eauto.
+Qed.
+
+Lemma presented_paths_ok H xs : Forall (fun x => len x <= u64max) xs -> Forall paths_ok (RunModel.distinct_torrents (loaded H xs)).
+Proof.
+  intros Hlen. apply Forall_forall. intros t Ht.
+  destruct (PresentProofs.distinct_spec (loaded H xs)) as (_ & Hsub & _).
+  destruct (loaded_in H xs t (Hsub t Ht)) as (x & Hx & Hl). rewrite Forall_forall in Hlen. exact (load_paths_ok H x t (Hlen x Hx) Hl).
+Qed.
+
+(** For ANY list of byte strings given as torrents and any index: the torrents that load, de-duplicated, with the table
+    and the work list the model builds from them, form a [run_setup] - provided the world is as the theorems need it
+    (the content has the declared lengths, SHA-1 is collision-free at the pieces, distinct files have distinct paths, no
+    two export paths are initially hard links of one another). *)
+Theorem run_setup_from_bytes H content export xs ix f0 :
+  Forall (fun x => len x <= u64max) xs -> index_paths_ok ix ->
+  let ts := RunModel.distinct_torrents (loaded H xs) in
+  (forall es, populate ix (metadata_table export ts 0) = Ok es ->
+     (forall e, In e es -> N.of_nat (length (content e)) = e_len e) /\ SystemProofs.table_functional content es /\
+     SystemProofs.alias_free content es f0 /\ forall ws, work_of es ts = Ok ws -> Forall (SolverProofs.cr H content) ws) ->
+  exists es ws, run_setup H content export ts ix es ws f0 (map (solve_prog H) ws).
+Proof.
+  intros Hlen Hix ts Hworld. destruct (presented_list_ok H xs Hlen) as [Hok Hnd].
+  destruct (setup_total export ts ix Hok (presented_paths_ok H xs Hlen) Hix) as (es & ws & Hpop & Hw).
+  destruct (Hworld es Hpop) as (Hc & Hf & Ha & Hcr). exists es, ws. unfold run_setup.
+  repeat (split; [assumption|]). split; [exact (Hcr ws Hw)|]. split; [exact Hf|]. split; [exact Ha|].
+  apply Forall_forall. intros pg Hin. apply in_map_iff in Hin. destruct Hin as (pc & <- & Hpc). eauto.
 Qed.
